@@ -133,10 +133,7 @@ func C13(c *Ctx) {
 				recv.Add(recv, recv) // a receiver in general projective form
 			}
 		}
-		var recvBefore [160]byte
-		if raw.PointOK() {
-			recvBefore = raw.PointBytes(recv)
-		}
+		recvBefore := raw.PointSnap(recv)
 		var p *edwards25519.Point
 		var err error
 		pv := catch(func() { p, err = recv.SetExtendedCoordinates(es[0], es[1], es[2], es[3]) })
@@ -162,7 +159,7 @@ func C13(c *Ctx) {
 			if p != nil {
 				c.Fail("error with non-nil point", det)
 			}
-			if raw.PointOK() && raw.PointBytes(recv) != recvBefore {
+			if raw.PointSnap(recv) != recvBefore {
 				c.Fail("rejected coordinates changed the receiver", det)
 			}
 			continue
@@ -182,6 +179,28 @@ func C13(c *Ctx) {
 		q, err := new(edwards25519.Point).SetExtendedCoordinates(X2, Y2, Z2, T2)
 		if err != nil || q.Equal(recv) != 1 || string(q.Bytes()) != string(recv.Bytes()) {
 			c.Fail("ExtendedCoordinates does not round-trip", det)
+		}
+		// the exported quadruple describes the point that was exported: it must still do so
+		// after the source object has gone on to hold another value (accumulator pattern)
+		if i%4 == 0 {
+			switch r.Intn(3) {
+			case 0:
+				recv.Add(recv, edwards25519.NewGeneratorPoint())
+			case 1:
+				recv.MultByCofactor(recv)
+				recv.Add(recv, edwards25519.NewGeneratorPoint())
+			default:
+				recv.Set(edwards25519.NewGeneratorPoint())
+			}
+			q2, err := new(edwards25519.Point).SetExtendedCoordinates(X2, Y2, Z2, T2)
+			if err != nil {
+				det["why"] = "rejected"
+				c.Fail("exported quadruple no longer describes the exported point after the source object was reused as a receiver", det)
+			} else if why, st := checkPoint(q2, wm); why != "" {
+				det["why"], det["got"] = why, hx(st.Enc)
+				c.Fail("exported quadruple no longer describes the exported point after the source object was reused as a receiver", det)
+			}
+			c.Tally("export outlives reuse of the source object")
 		}
 		c.Sample(class, map[string]any{"class": class, "point": ptHex(wm), "point-class": cls, "X": descs[0], "Z": descs[2]})
 	}
